@@ -93,8 +93,12 @@ func unknownAlphabet(ty cty.Type, thorough bool) []cty.Value {
 		// equal bounds around the sizes at which a decoder may cap what it reserves (64, 1024)
 		for _, n := range []int{63, 64, 65, 100, 1023, 1024} {
 			n := n
-			add(func() cty.Value { return cty.UnknownVal(ty).Refine().CollectionLengthLowerBound(n).CollectionLengthUpperBound(n).NewValue() })
-			add(func() cty.Value { return cty.UnknownVal(ty).Refine().CollectionLengthLowerBound(n).CollectionLengthUpperBound(n + 1).NewValue() })
+			add(func() cty.Value {
+				return cty.UnknownVal(ty).Refine().CollectionLengthLowerBound(n).CollectionLengthUpperBound(n).NewValue()
+			})
+			add(func() cty.Value {
+				return cty.UnknownVal(ty).Refine().CollectionLengthLowerBound(n).CollectionLengthUpperBound(n + 1).NewValue()
+			})
 		}
 		for _, lo := range []int{0, 1, 2} {
 			for _, hi := range []int{-1, 0, 1, 3, math.MaxInt32} {
